@@ -332,7 +332,7 @@ Proof.
   - (* SMapValuesBack *) reflexivity.
   - (* SMapBatches *) reflexivity.
   - (* SMapValuesBatches *)
-    destruct b as [f| |]; try discriminate H.
+    destruct b as [f| | | |]; try discriminate H.
     cbn [cop op_batch_map_values mk_op op_fn].
     rewrite batch_values_chunks_ok; [reflexivity|].
     intros l0. cbn [bf]. apply map_length.
@@ -355,6 +355,19 @@ Proof.
   intros h n l Hn. rewrite <- concat_map, chunks_concat by exact Hn. reflexivity.
 Qed.
 
+Lemma concat_map_flat_map : forall (g : val -> list val) cs,
+    concat (map (flat_map g) cs) = flat_map g (concat cs).
+Proof.
+  intros g cs. induction cs as [|c r IH]; cbn [map concat]; [reflexivity|].
+  rewrite flat_map_app, IH. reflexivity.
+Qed.
+
+Lemma concat_map_flat_map_chunks : forall (g : val -> list val) n l,
+    1 <= n -> concat (map (flat_map g) (chunks n l)) = flat_map g l.
+Proof.
+  intros g n l Hn. rewrite concat_map_flat_map, chunks_concat by exact Hn. reflexivity.
+Qed.
+
 (* every element-wise step is a flat_map in the reference semantics *)
 Lemma dstep_ew : forall st,
     elementwise_step st = true -> exists g, forall l, dstep st l = flat_map g l.
@@ -372,11 +385,15 @@ Proof.
   - eexists. intros l. apply map_as_flat_map.
   - eexists. intros l. apply (filter_as_flat_map _ (fun kv => pf p (vsnd kv))).
   - eexists. intros l. apply map_as_flat_map.
-  - destruct b as [f| |]; try discriminate H.
-    exists (fun x => [ef f x]). intros l. unfold d_batch.
-    change (bf (BEach f)) with (map (ef f)).
-    rewrite concat_map_map_chunks by lia. apply map_as_flat_map.
-  - destruct b as [f| |]; try discriminate H.
+  - destruct b as [f| | | |]; try discriminate H.
+    + exists (fun x => [ef f x]). intros l. unfold d_batch.
+      change (bf (BEach f)) with (map (ef f)).
+      rewrite concat_map_map_chunks by lia. apply map_as_flat_map.
+    + (* BDup: every element twice *)
+      exists (fun x => [x; x]). intros l. unfold d_batch.
+      change (bf BDup) with (flat_map (fun x : val => [x; x])).
+      rewrite concat_map_flat_map_chunks by lia. reflexivity.
+  - destruct b as [f| | | |]; try discriminate H.
     exists (fun x => [VPair (vfst x) (ef f (vsnd x))]). intros l. unfold d_batch_values.
     change (bf (BEach f)) with (map (ef f)).
     rewrite (map_ext _ (map (fun x => VPair (vfst x) (ef f (vsnd x)))))
